@@ -158,19 +158,38 @@ def dispatchArgs (fs : Fields) : Option Bytes :=
 
 /-! ## the sections of `generateTemplate`, in the order of the source -/
 
-/-- `a.Type.Kind == idl.TypeObject || a.Type.Kind == idl.TypeAlias || a.Type.Kind == idl.TypeMaybe`: the
-    declaration is a Go type alias (`type A = B`), because a defined type would lose json.RawMessage's
-    MarshalJSON/UnmarshalJSON -/
-def isAliasDecl : Ty → Bool
-  | .object => true
-  | .named _ => true
-  | .maybe _ => true
-  | _ => false
+/-- the alias with this name that the loop `for _, a := range midl.Aliases { if a.Name == … { next = a.Type } }`
+    ends with: the LAST one (names are unique in parsed descriptions) -/
+def lookupAliasLast : List Member → Bytes → Option Ty
+  | [], _ => none
+  | .alias m _ ty :: r, n =>
+    match lookupAliasLast r n with
+    | some t => some t
+    | none => if m = n then some ty else none
+  | _ :: r, n => lookupAliasLast r n
 
-/-- main.go:112-122 -/
-def aliasDecl : Member → Option Bytes
-  | .alias n d ty => (writeType ty true 0).map (fun t =>
-      writeDocString d ++ str "type " ++ n ++ str " " ++ (if isAliasDecl ty then str "= " else []) ++ t
+/-- `resolvesToObject` (main.go:76-102): is the type `object`, possibly behind optionals and named types; `k`
+    iterations are left -/
+def resolvesToObjectF (aliases : List Member) : Nat → Ty → Bool
+  | 0, _ => false
+  | _ + 1, .object => true
+  | k + 1, .maybe e => resolvesToObjectF aliases k e
+  | k + 1, .named n =>
+    match lookupAliasLast aliases n with
+    | some ty => resolvesToObjectF aliases k ty
+    | none => false
+  | _ + 1, _ => false
+
+/-- `for depth := 0; depth <= 2*len(midl.Aliases)+2; depth++`: `2n+3` iterations -/
+def resolvesToObject (t : Idl) (ty : Ty) : Bool :=
+  resolvesToObjectF t.aliases (2 * t.aliases.length + 3) ty
+
+/-- main.go:139-149: only aliases that resolve to object are Go type aliases (`type A = B`), because a defined
+    type would lose json.RawMessage's MarshalJSON/UnmarshalJSON; everything else stays a defined type, which may
+    be recursive -/
+def aliasDecl (t : Idl) : Member → Option Bytes
+  | .alias n d ty => (writeType ty true 0).map (fun x =>
+      writeDocString d ++ str "type " ++ n ++ str " " ++ (if resolvesToObject t ty then str "= " else []) ++ x
       ++ str "\n\n")
   | _ => some []
 
@@ -415,7 +434,7 @@ def tailText (pkg name description : Bytes) : Bytes :=
 /-- the buffer `b` at main.go:534 (`ret_string` before the import patch) -/
 def bodyText (t : Idl) : Option Bytes :=
   let pkg := pkgName t.name
-  match concatOpt aliasDecl t.aliases, concatOpt (errorDecl t.name) t.errors,
+  match concatOpt (aliasDecl t) t.aliases, concatOpt (errorDecl t.name) t.errors,
         concatOpt (methodClient t.name) t.methods, concatOpt ifaceMethod t.methods,
         concatOpt (errorReply t.name) t.errors, concatOpt methodReply t.methods,
         concatOpt (dummyImpl t.name) t.methods, concatOpt (dispatchCase pkg) t.methods with
